@@ -32,6 +32,8 @@ VARIABLES l, bad, nbad, ntr,
 tvars == <<content, l, bad, nbad, ntr, tc, startRoot, stale, pobs, kids, store, deadsOf, sroot, scont, pruneBelow, mode, ver>>
 
 MaxBad == 40
+\* deviations are kept per class (operation, failed checks, deviation flags): a flood of one class never hides another
+KeepBad(bd, op, fl, dv) == Cardinality({b \in bd : b[3] = op /\ b[4] = fl /\ b[5] = dv}) < 6 /\ Cardinality(bd) < 40 * MaxBad
 ToSet(s) == {s[i] : i \in DOMAIN s}
 Flag(cond, name) == IF cond THEN {} ELSE {name}
 EmptyFn == [x \in {} |-> 0]
@@ -196,7 +198,7 @@ TraceNext ==
          /\ l' = l + 1
          /\ ntr' = IF e.op = "reset" THEN ntr + 1 ELSE ntr
          /\ nbad' = IF f = {} THEN nbad ELSE nbad + 1
-         /\ bad' = IF f = {} \/ Cardinality(bad) >= MaxBad THEN bad ELSE bad \cup {<<e.tid, l, e.op, f, {}>>}
+         /\ bad' = IF f = {} \/ ~KeepBad(bad, e.op, f, {}) THEN bad ELSE bad \cup {<<e.tid, l, e.op, f, {}>>}
 
 TraceSpec == TraceInit /\ [][TraceNext]_tvars
 
